@@ -30,7 +30,10 @@ PROPS = {
         "level_text": "All six operators on every ordered pair of each pool, hash ids, sorted order, set size and transitivity of the real "
                       "library are judged by TLC against the order of the instants on the integer timeline; pools are built so that many "
                       "members are the same instant spelled differently (representation, offset, precision, 24:00) or 1 s apart across boundaries.",
-        "drivers": ["c02", "suite_cmp1"], "mc": [], "expect_ops": ["Cmp", "Pool", "Cmp1"],
+        "drivers": ["c02", "suite_cmp1"],
+        "mc": [{"module": "MC_C02.tla", "cfg": "MC_C02.cfg", "cfg_quick": "MC_C02_quick.cfg"},
+               {"module": "MC_C02.tla", "cfg": "MC_C02_twin1.cfg", "expect_violation": True},
+               {"module": "MC_C02.tla", "cfg": "MC_C02_twin2.cfg", "expect_violation": True, "tier": "thorough"}], "expect_ops": ["Cmp", "Pool", "Cmp1"],
         "rule": "one case = one pool of 6-7 time points under one mode (36-49 ordered pairs + sort/set/hash); every pool is non-trivial "
                 "(it contains respelled and 1-second-shifted members by construction)",
         "assumptions": TRUST,
@@ -39,7 +42,9 @@ PROPS = {
         "technique": "TLA+ spec (Ops.tla SubClause: signed distance on the timeline) + TLC trace validation of a-b and the three identities",
         "level_text": "Every recorded difference is judged by TLC: exact, single-signed, fields in range, length = distance of the instants; "
                       "(a-b)==-(b-a), b+(a-b)==a and (p+d)-p==d are recorded as library results and re-derived on the timeline.",
-        "drivers": ["c04", "suite_subtp"], "mc": [], "expect_ops": ["SubTP", "Ident", "RoundTrip", "SuiteEnd"],
+        "drivers": ["c04", "suite_subtp"],
+        "mc": [{"module": "MC_C02.tla", "cfg": "MC_C02.cfg", "cfg_quick": "MC_C02_quick.cfg"},
+               {"module": "MC_C02.tla", "cfg": "MC_C02_twin2.cfg", "expect_violation": True}], "expect_ops": ["SubTP", "Ident", "RoundTrip", "SuiteEnd"],
         "rule": "one case = one ordered pair (a, b) (or one (p, d) round trip); non-trivial = different years, representations or offsets",
         "assumptions": TRUST,
     },
@@ -48,7 +53,11 @@ PROPS = {
         "level_text": "The specification defines n months as n clamped single steps, year clamping per representation and the order "
                       "exact->months->years; TLC requires every recorded result of the library to carry exactly the date fields, time of day, "
                       "offset and representation the definition gives, from every month end / leap day / day 366 / week 53 of each year type.",
-        "drivers": ["c05"], "mc": [], "expect_ops": ["Add"],
+        "drivers": ["c05"],
+        "mc": [{"module": "MC_C05.tla", "cfg": "MC_C05.cfg"},
+               {"module": "MC_C05.tla", "cfg": "MC_C05_twin1.cfg", "expect_violation": True},
+               {"module": "MC_C05.tla", "cfg": "MC_C05_twin2.cfg", "expect_violation": True, "tier": "thorough"},
+               {"module": "MC_C05.tla", "cfg": "MC_C05_twin3.cfg", "expect_violation": True, "tier": "thorough"}], "expect_ops": ["Add"],
         "rule": "one case = one nominal (or mixed) addition; all cases start from month ends, leap days, last days of a year, week 53 or are random",
         "assumptions": TRUST,
     },
@@ -57,7 +66,8 @@ PROPS = {
         "level_text": "For every legal destination offset (-99:59..+99:59, both signs of zero-hour offsets) TLC checks that the re-expressed "
                       "value denotes the same instant, carries exactly the requested offset, keeps the representation and has valid fields, and "
                       "that ==, hash and difference recorded from the library agree.",
-        "drivers": ["c06"], "mc": [], "expect_ops": ["Zone"],
+        "drivers": ["c06"],
+        "mc": [{"module": "MC_C06.tla", "cfg": "MC_C06.cfg", "cfg_quick": "MC_C06_quick.cfg"}], "expect_ops": ["Zone"],
         "rule": "one case = one re-expression; non-trivial = destination offset differs from the source offset",
         "exhaustive_part": {"quick": "all 12 058 destination offsets once", "thorough": "all destination offsets x 4 rounds of boundary points"},
         "assumptions": TRUST,
